@@ -1151,12 +1151,33 @@ pub fn c06(args: &Args) -> i32 {
             }
         }
     }
+    // statement lines: assignment and comparison characters glued and spaced, at the start, in the middle and at the end
+    let stmt_alphabet = ["x", "1", "=", "==", " ", "+", "(", ")", "{y}", "<=", "!=", "y1", ","];
+    let max_len_stmt = if quick { 4 } else { 5 };
+    for len in 0..=max_len_stmt {
+        for s in tuples(stmt_alphabet.len(), len) {
+            let text: String = s.iter().map(|&i| stmt_alphabet[i]).collect::<Vec<_>>().concat();
+            conc.stats.programs += 1;
+            conc.stats.note_text(1, &text);
+            let r = catch_unwind(AssertUnwindSafe(|| {
+                let _ = exmex::line_2_statement_val::<i32, f64>(&text);
+                let _ = exmex::statements::line_2_statement::<f64, exmex::FloatOpsFactory<f64>, exmex::NumberMatcher>(&text);
+            }));
+            if r.is_err() {
+                conc.stats.panics += 1;
+                conc.stats.violations += 1;
+                if conc.findings.len() < 15 {
+                    conc.findings.push(mk_finding("panic", "line_2_statement / line_2_statement_val", &Table::default(), &text, None, String::new(), String::new(), "panic in a statement-line entry point".into()));
+                }
+            }
+        }
+    }
     let _ = std::panic::take_hook();
     conc.wall_s = t0.elapsed().as_secs_f64();
     let p3 = Part {
         name: "concrete-entry-points",
         out: conc,
-        bounds: json!({"alphabet": val_alphabet, "max_len": max_len3, "entry_points": ["parse_val::<i32,f64> (+ eval, unparse, operator_reprs, to_deepex, partial)", "eval_str::<f64>", "line_2_statement_val"],
+        bounds: json!({"alphabet": val_alphabet, "max_len": max_len3, "statement_alphabet": stmt_alphabet, "statement_max_len": max_len_stmt, "statement_texts": "every concatenation (no separator; the blank is a letter of the alphabet) up to the length bound through line_2_statement::<f64> and line_2_statement_val::<i32,f64>", "entry_points": ["parse_val::<i32,f64> (+ eval, unparse, operator_reprs, to_deepex, partial)", "eval_str::<f64>", "line_2_statement_val"],
             "note": "concrete data types: plain execution of enumerated inputs under catch_unwind (no solver); the panics of value.rs on special operand values are decided by engine K (C17)"}),
     };
     // part 4: long and deeply nested texts in a child process (a stack overflow cannot be caught in-process)
@@ -1451,6 +1472,140 @@ pub fn c13(args: &Args) -> i32 {
         "functions": ["parser::tokenize_and_analyze (operator sorting, exact-match look-ahead, brace tokenisation, RE_VAR_NAME)", "parser::is_numeric_text", "parser::is_operator_binary"],
         "assumptions": ["a string has no symbolic value: this part is enumeration of lexical families through the real tokenizer (regex/lazy_static cannot be encoded by the installed engines); the kernels is_numeric_text and is_operator_binary are decided for all inputs by engine K"],
         "outside": ["identifiers and operator tables outside the listed families", "alphabetic BINARY operator names followed by identifier characters (the look-ahead is documented as skipped for them)"],
+    }))
+}
+
+// ---------------------------------------------------------------------------------------------
+// C17 catalogue: every operator of the real value table on every (ordered pair of) catalogue operand(s), at evaluation
+// time and through parse-time folding; the assertion is path-level (no panic), the property's own quantifier is this
+// catalogue. The operand-independent claim (ALL payloads) is engine K's.
+// ---------------------------------------------------------------------------------------------
+
+pub fn c17(args: &Args) -> i32 {
+    use exmex::{MakeOperators, Val, ValOpsFactory};
+    use smallvec::smallvec;
+    let quick = args.tier_quick();
+    let t0 = Instant::now();
+    type V = Val<i32, f64>;
+    let ints: Vec<i32> = vec![0, 1, -1, 2, -2, 3, 7, 31, 32, 33, 63, 64, 65, 12, 13, 100, -100, 46340, 46341, 65535, 65536, -65536, i32::MAX, i32::MAX - 1, i32::MIN, i32::MIN + 1, 1 << 30, -(1 << 30)];
+    let floats: Vec<f64> = vec![0.0, -0.0, 1.0, -1.0, 0.5, -0.5, 1.5, 2.0, 3.0, 1e-310, -1e-310, 5e-324, 1e300, -1e300, f64::MAX, f64::MIN, f64::INFINITY, f64::NEG_INFINITY, f64::NAN, 2147483647.0, 2147483648.0, -2147483648.0, -2147483649.0, 4294967296.0, 1e10, -1e10, 0.49999999999999994, 9007199254740992.0, 31.0, 32.0, 64.0];
+    let mut cat: Vec<(String, V)> = vec![];
+    for i in &ints {
+        cat.push((format!("Int({i})"), Val::Int(*i)));
+    }
+    for x in &floats {
+        cat.push((format!("Float({x:?})"), Val::Float(*x)));
+    }
+    cat.push(("Bool(true)".into(), Val::Bool(true)));
+    cat.push(("Bool(false)".into(), Val::Bool(false)));
+    cat.push(("None".into(), Val::None));
+    cat.push(("Error".into(), Val::Error(exmex::ExError::new("e"))));
+    let specials = [0.0, -1.5, f64::NAN, f64::INFINITY, 1e300, 2.0];
+    for len in 0..=5usize {
+        for rot in 0..(if len == 0 { 1 } else { 3 }) {
+            let a: smallvec::SmallVec<[f64; 0]> = smallvec![];
+            let _ = a;
+            let elems: Vec<f64> = (0..len).map(|j| specials[(j + rot * 2) % specials.len()]).collect();
+            cat.push((format!("Array({elems:?})"), Val::Array(elems.into_iter().collect())));
+        }
+    }
+    let ops = ValOpsFactory::<i32, f64>::make();
+    let mut out = empty_out();
+    let _ = std::panic::take_hook();
+    std::panic::set_hook(Box::new(|_| {}));
+    let tab = Table::default();
+    for op in &ops {
+        if let Ok(f) = op.unary() {
+            for (la, a) in &cat {
+                out.stats.programs += 1;
+                out.stats.vcs += 1;
+                let a2 = a.clone();
+                if catch_unwind(AssertUnwindSafe(move || { let _ = f(a2); })).is_err() {
+                    out.stats.panics += 1;
+                    out.stats.violations += 1;
+                    if out.findings.len() < 20 {
+                        out.findings.push(mk_finding("panic", "value-operator", &tab, &format!("{}({la})", op.repr()), None, String::new(), String::new(), format!("unary operator `{}` panics on {la}", op.repr())));
+                    }
+                }
+            }
+        }
+        if let Ok(b) = op.bin() {
+            let f = b.apply;
+            for (la, a) in &cat {
+                for (lb, bb) in &cat {
+                    out.stats.programs += 1;
+                    out.stats.vcs += 1;
+                    let (a2, b2) = (a.clone(), bb.clone());
+                    if catch_unwind(AssertUnwindSafe(move || { let _ = f(a2, b2); })).is_err() {
+                        out.stats.panics += 1;
+                        out.stats.violations += 1;
+                        if out.findings.len() < 20 {
+                            out.findings.push(mk_finding("panic", "value-operator", &tab, &format!("{la} {} {lb}", op.repr()), None, String::new(), String::new(), format!("binary operator `{}` panics on ({la}, {lb})", op.repr())));
+                        }
+                    }
+                }
+            }
+        }
+    }
+    // parse-time folding: literals of every kind the matcher can spell
+    let lits = ["0", "1", "2", "3", "31", "32", "33", "63", "64", "12", "13", "46341", "65536", "2147483647", "(0-2147483647-1)", "(0-1)", "(0-2)", "0.0", "0.5", "1.5", "2.0", "1e10", "(0.0-1.5)", "(1.0/0.0)", "(0.0/0.0)", "2147483648.0", "true", "false", "[1.0,2.0]", "[1.0,2.0,3.0]", "[1.0]", "[1.0,2.0,3.0,4.0]", "(1/0)"];
+    let mut folded = 0u64;
+    for op in &ops {
+        let r = op.repr();
+        let alpha = r.chars().next().map(|c| c.is_alphabetic()).unwrap_or(false);
+        if op.unary().is_ok() {
+            for a in lits {
+                let text = if alpha { format!("{r}({a})") } else { format!("{r}{a}") };
+                folded += 1;
+                out.stats.programs += 1;
+                let t2 = text.clone();
+                if catch_unwind(AssertUnwindSafe(move || { let _ = exmex::parse_val::<i32, f64>(&t2).map(|e| e.eval(&[])); })).is_err() {
+                    out.stats.panics += 1;
+                    out.stats.violations += 1;
+                    if out.findings.len() < 20 {
+                        out.findings.push(mk_finding("panic", "parse_val (folding)", &tab, &text, None, String::new(), String::new(), "panic while parsing / folding / evaluating a constant expression".into()));
+                    }
+                }
+            }
+        }
+        if op.bin().is_ok() {
+            for (i, a) in lits.iter().enumerate() {
+                for (j, b) in lits.iter().enumerate() {
+                    if quick && (i * 7 + j) % 2 == 1 && !(a.starts_with('[') && b.starts_with('[')) {
+                        continue;
+                    }
+                    let text = if alpha { format!("{r}({a}, {b})") } else { format!("{a} {r} {b}") };
+                    folded += 1;
+                    out.stats.programs += 1;
+                    let t2 = text.clone();
+                    if catch_unwind(AssertUnwindSafe(move || { let _ = exmex::parse_val::<i32, f64>(&t2).map(|e| e.eval(&[])); })).is_err() {
+                        out.stats.panics += 1;
+                        out.stats.violations += 1;
+                        if out.findings.len() < 20 {
+                            out.findings.push(mk_finding("panic", "parse_val (folding)", &tab, &text, None, String::new(), String::new(), "panic while parsing / folding / evaluating a constant expression".into()));
+                        }
+                    }
+                }
+            }
+        }
+    }
+    let _ = std::panic::take_hook();
+    out.wall_s = t0.elapsed().as_secs_f64();
+    let n_cat = cat.len();
+    let p = Part {
+        name: "catalogue",
+        out,
+        bounds: json!({
+            "catalogue": format!("{n_cat} operands: {} ints (0, +-1, shift and factorial boundaries, sqrt-overflow boundary, MIN, MAX, ...), {} floats (signed zeros, subnormals, huge, inf, NaN, i32 range boundaries), true, false, None, Error, arrays of length 0..=5 with special elements", ints.len(), floats.len()),
+            "evaluation_time": "every unary operator of the real ValOpsFactory::<i32,f64>::make() on every operand, every binary operator on every ordered pair",
+            "parse_time": format!("{folded} constant expressions `op(a)`, `a op b` / `op(a, b)` over {} literal spellings through parse_val (folding) and eval{}", lits.len(), if quick { "; binary pairs every 2nd" } else { "" }),
+            "check": "no panic (catch_unwind); plain execution, no solver: this is the catalogue of the property's own quantifier, the claim for ALL payloads is engine K's",
+        }),
+    };
+    crate::props::finish(args, "C17", vec![p], vec![], json!({
+        "functions": ["every function pointer of ValOpsFactory::<i32,f64>::make()", "parse_val (FlatEx::parse + compile over the value table)"],
+        "assumptions": ["debug-assertion build profile of the helper is release (opt-level 2) with overflow checks as in the user's release build; Rust-level overflow panics in dev builds are engine K's obligations"],
+        "outside": ["operands outside the catalogue (engine K: all payloads per operand kind)"],
     }))
 }
 
